@@ -10,8 +10,13 @@ import (
 	"os/exec"
 	"strconv"
 	"strings"
+	"sync"
 	"time"
 )
+
+var qstat = os.Getenv("GOSYM_QSTAT") != ""
+var qstatMu sync.Mutex
+var qstatMap = map[string]int{}
 
 type Solver struct {
 	kind    string // z3 | z3-new | cvc5
@@ -231,6 +236,18 @@ func (r CheckResult) String() string {
 func (s *Solver) Check(extra *Term, vars []*Term) (CheckResult, map[string]uint64) {
 	if extra != nil && extra.IsFalse() {
 		return ResUnsat, nil
+	}
+	if qstat {
+		key := "nil"
+		if extra != nil {
+			key = extra.String()
+			if len(key) > 60 {
+				key = key[:60]
+			}
+		}
+		qstatMu.Lock()
+		qstatMap[key]++
+		qstatMu.Unlock()
 	}
 	if extra != nil {
 		s.define(extra)
